@@ -236,6 +236,68 @@ def job_factories(j, seed):
     return {'obligations': obs, 'candidates': cands, 'paths': 1}
 
 
+def job_absorption(j, seed):
+    """Public entry points of the absorption module: building a Cylinder from caller-owned variables and asking it for its
+    centre, volume, path lengths and integration points leaves every one of those variables as it was (buffers not written,
+    values unchanged) - for ANY axis vector, not only for axes whose computed norm happens to be exactly 1."""
+    what, budget = j
+    import numpy as np
+    from symex import core as C
+    from symsc import variable as V
+    from . import c18_cylinder as c18
+    from .symutil import fresh_run, sym_unit
+
+    sc, cyl, base = c18._load()
+    fresh_run()
+    obs, cands = [], []
+    case = {'kind': 'absorption', 'what': what}
+    uL = sym_unit('L', 'm')
+    comps = lambda nm: [C.sym_var(f'{nm}_{x}') for x in 'xyz']  # noqa: E731
+    if what == 'unit-axis':
+        a = c18._unit_vec(C, 'a')
+    else:
+        a = comps('a')  # a direction given un-normalised
+        n_ = C.rsqrt(a[0] * a[0] + a[1] * a[1] + a[2] * a[2], nonneg=True)
+        C.CTX.assume(n_ > 0)
+        C.CTX.assume_nonzero(n_)
+    args = {'symmetry_line': c18._vecvar(sc, a, 'dimensionless'), 'center_of_base': c18._vecvar(sc, comps('c'), uL),
+            'radius': sc.scalar(C.sym_var('r', sign='+'), unit=uL), 'height': sc.scalar(C.sym_var('h', sign='+'), unit=uL)}
+    start, direction = c18._vecvar(sc, comps('p'), uL), c18._vecvar(sc, comps('n'), 'dimensionless')
+    tracked = {**args, 'start': start, 'direction': direction}
+    snap = {k: [x for x in v._a.reshape(-1)] for k, v in tracked.items()}
+    V.WRITE_LOG.clear()
+    C.CTX.fork_timeout_ms = 2000
+    steps = {}
+
+    def run_():
+        shape = cyl.Cylinder(**args)
+        steps['constructed'] = {b.id for b in V.WRITE_LOG}
+        shape.center, shape.volume  # noqa: B018
+        try:
+            shape.beam_intersection(start, direction)
+        except C.HarnessError:
+            raise
+        return True
+
+    paths = C.explore(run_, max_paths=budget)
+    written = {b.id for b in V.WRITE_LOG}
+    ok_paths = [p for p in paths if not p.inconclusive]
+    for k, v in tracked.items():
+        ob = C.prove(f'absorption[{what}]: Cylinder(...), center, volume, beam_intersection do not write to the caller\'s {k}', C.B.const(v._buf.id not in written))
+        obs.append(ob_dict(ob))
+        if ob.status != 'discharged':
+            cands.append((f'C09:absorption:{k}', case, f'the caller\'s {k} is written'))
+        now = [x for x in v._a.reshape(-1)]
+        same = C.all_of([C.R.lift(x) == C.R.lift(y) for x, y in zip(now, snap[k], strict=True)])
+        ob = C.prove(f'absorption[{what}]: value of the caller\'s {k} unchanged', same)
+        obs.append(ob_dict(ob))
+        if ob.status == 'violated':
+            cands.append((f'C09:absorption:{k}', case, f'the caller\'s {k} holds another value afterwards'))
+    ob = C.prove(f'absorption[{what}]: some path completes ({len(ok_paths)} followed to the end; path budget {budget}; the arithmetic of the remaining where-branches is C18\'s subject)', C.B.const(len(ok_paths) >= 1))
+    obs.append(ob_dict(ob))
+    return {'obligations': obs, 'candidates': cands, 'paths': len(paths)}
+
+
 def run(chk):
     from symex import loader
 
@@ -247,6 +309,7 @@ def run(chk):
     chk.functions = loader.describe(fl)
     run_jobs(chk, job_args, list(range(len(ents))))
     run_jobs(chk, job_factories, ['graphs', 'models', 'cif', 'atoms'])
+    run_jobs(chk, job_absorption, [('any-axis', 5)] if chk.tier == 'quick' else [('any-axis', 16), ('unit-axis', 16)])
     chk.bounds = {'entry points': len(ents), 'aliasing': 'phase 1 records every copy=False conversion of an argument buffer; phase 2 re-runs with the argument already in that unit/dtype (single targets and all at once)',
                   'factories': 'one call-mutate-call step from arbitrary earlier history (inductive); containers are plain dict/list/set so aliasing is concrete'}
     chk.stubs = ['scipp -> symsc with buffer identities, a write log (in-place operators, out=, setitem, value/values/unit setters) and a conversion log']
@@ -260,6 +323,29 @@ def replay_real(case):
     import scipp as sc
 
     bad = []
+    if case['kind'] == 'absorption':
+        from scippneutron.absorption import Cylinder
+
+        rng = np.random.default_rng(5)
+        axes = [[0.0, 3.0, 4.0], [1.0, 1.0, 0.0], [0.0, 0.0, 1.0], [2 ** -0.5, 0.0, 2 ** -0.5]] + [list(rng.normal(size=3)) for _ in range(6)]
+        for ax in axes:
+            args = {'symmetry_line': sc.vector(ax), 'center_of_base': sc.vector(rng.normal(size=3), unit='mm'), 'radius': sc.scalar(2.0, unit='mm'), 'height': sc.scalar(7.0, unit='mm')}
+            start, direction = sc.vector(rng.normal(size=3), unit='mm'), sc.vector([0.0, 0.6, 0.8])
+            keep = {k: v.copy() for k, v in {**args, 'start': start, 'direction': direction}.items()}
+            for round_ in range(2):
+                try:
+                    shape = Cylinder(**args)
+                    shape.center, shape.volume  # noqa: B018
+                    shape.beam_intersection(start, direction)
+                    shape.quadrature('cheap')
+                except Exception as e:  # noqa: BLE001
+                    break
+                for k, v in {**args, 'start': start, 'direction': direction}.items():
+                    if not sc.identical(v, keep[k]):
+                        bad.append(f'Cylinder(symmetry_line={ax}) / its methods changed the caller\'s {k}: {keep[k].values.tolist()} -> {v.values.tolist()} (round {round_ + 1})')
+            if bad:
+                break
+        return {'reproduced': bool(bad), 'detail': '; '.join(bad[:2])}
     if case['kind'] == 'args':
         import importlib
 
